@@ -1,5 +1,6 @@
 import Mouette.Props.C01
 import Mouette.Lemmas.C01Source
+import Mouette.Lemmas.C01HalfEdge
 /-!
 # C01 (part 4) — method bodies TRANSLATED from `surface.py` / `linear.py`
 
@@ -135,7 +136,106 @@ theorem source_vertex_to_edges_eq_model (S : Surf) (v : Nat) :
 theorem source_other_edge_end_eq_model (S : Surf) (e v : Nat) :
     Mouette.Generated.C01Src.otherEdgeEnd S e v = otherEdgeEnd S e v := otherEdgeEnd_bridge S e v
 
+/-! ## `_compute_connectivity` and the accessors reading its caches (`Generated/C01HE.lean`) -/
+section halfEdges
+open Mouette.Lemmas.C01HalfEdge
+
+/-- the caches the translated `_compute_connectivity` leaves on a built mesh -/
+abbrev srcVF (faces : Faces) (nv : Nat) (so : Bool) : VFDict := (Mouette.Generated.C01HE.computeConnectivity (build nv faces so)).2.1
+abbrev srcHE (faces : Faces) (nv : Nat) (so : Bool) : HEDict := (Mouette.Generated.C01HE.computeConnectivity (build nv faces so)).2.2.2.1
+abbrev srcCN (faces : Faces) (nv : Nat) (so : Bool) : CnDict := (Mouette.Generated.C01HE.computeConnectivity (build nv faces so)).2.2.2.2
+
+variable {faces : Faces} (nv : Nat) (so : Bool)
+
+/-- **bridge** `_compute_connectivity` (corner loop, half-edge loops with their index expressions `F[(iV-1)%n]`, `F[(iV+1)%n]`, the
+`_adjVF2Cn` lookups, the opposite pass writing field 3 of both entries): on a mesh whose faces have no repeated vertex
+* `_adjVF2Cn` is the `face_corners` container with its positions (the model's `fcR`),
+* `_half_edges` has, for every side of the model, the entry `[corner, previous, next, opposite, face, i, j]` under the key `(u,v)`,
+  most recent side first, where `opposite` is the corner of the reversed side when the face list has it (the model's `oppOf`),
+* `_Cn2he` maps every corner to its side. -/
+theorem source_half_edge_tables_eq_model (hnd : ∀ F ∈ faces, F.Nodup) :
+    srcVF faces nv so = (build nv faces so).fcR ∧
+    srcHE faces nv so = (build nv faces so).sidesR.map (heE (build nv faces so).sidesR) ∧
+    srcCN faces nv so = (build nv faces so).sidesR.map cnE := by
+  have H : ∀ k i, k < faces.length → i < (fa faces k).length →
+      dictGetD (build nv faces so).fc.zipIdx.reverse ((fa faces k).getD i 0, k) = offset faces k + i := by
+    intro k i hk hi
+    have hF : fa faces k ∈ faces := by
+      have : fa faces k = faces[k] := by simp [fa, List.getD, hk]
+      rw [this]; exact List.getElem_mem hk
+    have h := vf2cn_eq nv so hk hi (hnd _ hF)
+    unfold vertexToCornerInFace at h
+    show ((List.find? (fun e => e.1 == ((fa faces k).getD i 0, k)) (build nv faces so).fcR).map (·.2)).getD 0 = _
+    rw [h]; rfl
+  obtain ⟨h1, h2⟩ := compute_tables (build nv faces so) faces rfl rfl H
+  exact ⟨computeConnectivity_vf _, h1, h2⟩
+
+/-- **bridges** of the accessors, on the caches the translated `_compute_connectivity` fills -/
+theorem source_previous_corner_eq_model (hnd : ∀ F ∈ faces, F.Nodup) (c : Nat) :
+    Mouette.Generated.C01HE.previousCorner (build nv faces so) (srcHE faces nv so) (srcCN faces nv so) (srcVF faces nv so) c =
+      previousCorner (build nv faces so) c :=
+  previousCorner_bridge _ _ _ _ (source_half_edge_tables_eq_model nv so hnd).2.1 (source_half_edge_tables_eq_model nv so hnd).2.2 c
+theorem source_next_corner_eq_model (hnd : ∀ F ∈ faces, F.Nodup) (c : Nat) :
+    Mouette.Generated.C01HE.nextCorner (build nv faces so) (srcHE faces nv so) (srcCN faces nv so) (srcVF faces nv so) c =
+      nextCorner (build nv faces so) c :=
+  nextCorner_bridge _ _ _ _ (source_half_edge_tables_eq_model nv so hnd).2.1 (source_half_edge_tables_eq_model nv so hnd).2.2 c
+theorem source_opposite_corner_eq_model (hnd : ∀ F ∈ faces, F.Nodup) (c : Nat) :
+    Mouette.Generated.C01HE.oppositeCorner (build nv faces so) (srcHE faces nv so) (srcCN faces nv so) (srcVF faces nv so) c =
+      oppositeCorner (build nv faces so) c :=
+  oppositeCorner_bridge _ _ _ _ (source_half_edge_tables_eq_model nv so hnd).2.1 (source_half_edge_tables_eq_model nv so hnd).2.2 c
+theorem source_corner_to_half_edge_eq_model (hnd : ∀ F ∈ faces, F.Nodup) (c : Nat) :
+    Mouette.Generated.C01HE.cornerToHalfEdge (build nv faces so) (srcHE faces nv so) (srcCN faces nv so) (srcVF faces nv so) c =
+      cornerToHalfEdge (build nv faces so) c :=
+  cornerToHalfEdge_bridge _ _ _ _ (source_half_edge_tables_eq_model nv so hnd).2.1 (source_half_edge_tables_eq_model nv so hnd).2.2 c
+theorem source_half_edge_to_corner_eq_model (hnd : ∀ F ∈ faces, F.Nodup) (u v : Nat) :
+    Mouette.Generated.C01HE.halfEdgeToCorner (build nv faces so) (srcHE faces nv so) (srcCN faces nv so) (srcVF faces nv so) u v =
+      halfEdgeToCorner (build nv faces so) u v :=
+  halfEdgeToCorner_bridge _ _ _ _ (source_half_edge_tables_eq_model nv so hnd).2.1 (source_half_edge_tables_eq_model nv so hnd).2.2 u v
+theorem source_vertex_to_corner_in_face_eq_model (v f : Nat) :
+    Mouette.Generated.C01HE.vertexToCornerInFace (build nv faces so) (srcHE faces nv so) (srcCN faces nv so) (srcVF faces nv so) v f =
+      vertexToCornerInFace (build nv faces so) v f :=
+  vertexToCornerInFace_bridge _ _ _ _ (computeConnectivity_vf _) v f
+theorem source_direct_face_eq_model (hnd : ∀ F ∈ faces, F.Nodup) (u v : Nat) :
+    Mouette.Generated.C01HE.directFace (build nv faces so) (srcHE faces nv so) (srcCN faces nv so) (srcVF faces nv so) u v =
+      directFace (build nv faces so) u v :=
+  directFace_bridge _ _ _ _ (source_half_edge_tables_eq_model nv so hnd).2.1 (source_half_edge_tables_eq_model nv so hnd).2.2 u v
+/-- `direct_face(u, v, True)`: the code's triple of possibly-`None` values is the model's optional triple -/
+theorem source_direct_face_inds_eq_model (hnd : ∀ F ∈ faces, F.Nodup) (u v : Nat) :
+    Mouette.Generated.C01HE.directFaceInds (build nv faces so) (srcHE faces nv so) (srcCN faces nv so) (srcVF faces nv so) u v =
+      tripleOf (directFaceInds (build nv faces so) u v) :=
+  directFaceInds_bridge _ _ _ _ (source_half_edge_tables_eq_model nv so hnd).2.1 (source_half_edge_tables_eq_model nv so hnd).2.2 u v
+theorem source_opposite_face_eq_model (hnd : ∀ F ∈ faces, F.Nodup) (u v F : Nat) :
+    Mouette.Generated.C01HE.oppositeFace (build nv faces so) (srcHE faces nv so) (srcCN faces nv so) (srcVF faces nv so) u v F =
+      oppositeFace (build nv faces so) u v F :=
+  oppositeFace_bridge _ _ _ _ (source_half_edge_tables_eq_model nv so hnd).2.1 (source_half_edge_tables_eq_model nv so hnd).2.2 u v F
+/-- `opposite_face(u, v, F, True)`, including which of the two local indices comes first in the returned triple -/
+theorem source_opposite_face_inds_eq_model (hnd : ∀ F ∈ faces, F.Nodup) (u v F : Nat) :
+    Mouette.Generated.C01HE.oppositeFaceInds (build nv faces so) (srcHE faces nv so) (srcCN faces nv so) (srcVF faces nv so) u v F =
+      tripleOf (oppositeFaceInds (build nv faces so) u v F) :=
+  oppositeFaceInds_bridge _ _ _ _ (source_half_edge_tables_eq_model nv so hnd).2.1 (source_half_edge_tables_eq_model nv so hnd).2.2 u v F
+theorem source_vertex_to_faces_eq_model (v : Nat) :
+    Mouette.Generated.C01HE.vertexToFaces (build nv faces so) (srcHE faces nv so) (srcCN faces nv so) (srcVF faces nv so) v =
+      vertexToFaces (build nv faces so) v := rfl
+
+/-- consequence: the translated `opposite_corner` satisfies the face-list specification `opposite_eq_spec` -/
+theorem source_direct_face_spec (hO : Oriented faces) (hnd : ∀ F ∈ faces, F.Nodup) (u v f : Nat) :
+    Mouette.Generated.C01HE.directFace (build nv faces so) (srcHE faces nv so) (srcCN faces nv so) (srcVF faces nv so) u v = some f ↔
+      ∃ i, IsSide faces f i u v := by
+  rw [source_direct_face_eq_model nv so hnd]; exact directFace_eq_spec nv so hO u v f
+
+end halfEdges
+
 /-! non-vacuity: the translated functions run on two triangles sharing the edge 1-2 -/
+example : (Mouette.Generated.C01HE.computeConnectivity (build 4 [[0, 1, 2], [2, 1, 3]] true)).2.2.2.1 =
+    [((3, 2), [some 5, some 4, some 3, none, some 1, some 2, some 0]),
+     ((1, 3), [some 4, some 3, some 5, none, some 1, some 1, some 2]),
+     ((2, 1), [some 3, some 5, some 4, some 1, some 1, some 0, some 1]),
+     ((2, 0), [some 2, some 1, some 0, none, some 0, some 2, some 0]),
+     ((1, 2), [some 1, some 0, some 2, some 3, some 0, some 1, some 2]),
+     ((0, 1), [some 0, some 2, some 1, none, some 0, some 0, some 1])] := by decide +kernel
+example : Mouette.Generated.C01HE.oppositeFaceInds (build 4 [[0, 1, 2], [2, 1, 3]] true)
+    (srcHE [[0, 1, 2], [2, 1, 3]] 4 true) (srcCN [[0, 1, 2], [2, 1, 3]] 4 true) (srcVF [[0, 1, 2], [2, 1, 3]] 4 true) 1 2 0 =
+    (some 1, some 1, some 0) := by decide +kernel
 example : Mouette.Generated.C01Src.computeInteriorBoundaryEdges (build 4 [[0, 1, 2], [2, 1, 3]] true) = ([1], [0, 2, 3, 4]) := by
   decide +kernel
 example : Mouette.Generated.C01Src.isEdgeOnBorder (build 4 [[0, 1, 2], [2, 1, 3]] true) 1 2 = false ∧
